@@ -188,4 +188,28 @@ example : Gen.classifyRequestSrc s hasPrefix sPOST (fun k => if k == s "Content-
 example : Gen.classifyRequestSrc s hasPrefix sPOST (fun k => if k == s "Content-Type" then [s "application/grpc+proto"] else []) (fun _ => [])
     = some .grpcClientProtocol := by decide +kernel
 
+/-! ### source tie: the small methods of the client protocol handlers
+
+  `Gen.clientProtocolSrc`, `Gen.endMustBeInHeadersSrc` and `Gen.acceptsStreamTypeSrc` are translated on every run from
+  the bodies of `protocol()`, `endMustBeInHeaders()` (an optional interface: a handler without the method answers
+  false) and `acceptsStreamType()` of every handler type `classifyRequest` can return. -/
+
+def streamOfSrc : Gen.StreamTypeSrc → StreamType
+  | .Unary => .unary | .Client => .client | .Server => .server | .Bidi => .bidi
+
+/-- The name of the `Protocol` constant (after the prefix `Protocol`). -/
+def protoName : Proto → String
+  | .connect => "Connect" | .grpc => "GRPC" | .grpcWeb => "GRPCWeb" | .rest => "REST"
+
+/-- For every handler and stream type: the model's protocol, its answer to "must the end be in the head" (which
+    decides whether the response is buffered: C16, C04) and the stream types it accepts (a rejection class of
+    C18: 415) are the source's.  The two REST predicates over `google.api.HttpBody` methods are false in the
+    modelled schema, which has no such method. -/
+theorem source_handler_methods_are_model (h : Gen.ClientHandlerSrc) (st : Gen.StreamTypeSrc) :
+    protoName (formOfHandler h).proto = Gen.clientProtocolSrc h ∧
+    protoName (formOfHandler h).proto ∈ Gen.protocols ∧
+    (formOfHandler h).endMustBeInHeaders = Gen.endMustBeInHeadersSrc h ∧
+    (formOfHandler h).acceptsStreamType (streamOfSrc st) = Gen.acceptsStreamTypeSrc false false h st := by
+  cases h <;> cases st <;> decide
+
 end Vanguard.C18
